@@ -170,6 +170,80 @@ pub fn gen_hostile(r: &mut Rng) -> Case {
     }
 }
 
+/// A validly signed request with 1–3 random byte-level edits (URI, a header value, the body, the clock): these
+/// travel much deeper into the pipeline than pure noise does.
+pub fn gen_mutated_valid(seed: u64, shard: u64, i: u64) -> Case {
+    let mut r = Rng::keyed(seed, "C08", "mutated-valid", shard, i);
+    let mut cfg = gen_cfg(&mut r);
+    if r.chance(1, 3) {
+        cfg.s3 = false;
+        cfg.fold = true;
+    }
+    let l = gen_logical(&mut r, &cfg, &GenOpts::default());
+    let mut sr = Rng::keyed(seed, "C08", "mutated-valid-spell", shard, i);
+    let mut sp = Speller {
+        r: &mut sr,
+        level: 1,
+    };
+    let (mut case, _) = make_case(&l, &cfg, &mut sp, &Overrides::default(), crate::gen::gen_delta_ns(&mut r));
+    let edits = 1 + r.usize_below(3);
+    for _ in 0..edits {
+        match r.below(7) {
+            0 | 1 | 2 => {
+                let u = &mut case.wire.uri;
+                let p = r.usize_below(u.len());
+                match r.below(4) {
+                    0 => u[p] = *r.pick(b"%+&=;/?.~!*'()@:,$"),
+                    1 => {
+                        u.insert(p, *r.pick(b"%+&=/?.2FfZz"));
+                    }
+                    2 if u.len() > 1 => {
+                        u.remove(p);
+                    }
+                    _ => {
+                        let tok: &[u8] = r.pick_bytes(&[b"%2", b"%zz", b"/../", b"/./", b"//", b"&&", b"&X-Amz-Algorithm=AWS4-HMAC-SHA256", b"&X-Amz-Signature=", b"%2F", b"+"]);
+                        for (k, b) in tok.iter().enumerate() {
+                            u.insert((p + k).min(u.len()), *b);
+                        }
+                    }
+                }
+            }
+            3 | 4 => {
+                if !case.wire.headers.is_empty() {
+                    let hi = r.usize_below(case.wire.headers.len());
+                    let v = &mut case.wire.headers[hi].1;
+                    if v.is_empty() {
+                        v.push(b'x');
+                    } else {
+                        let p = r.usize_below(v.len());
+                        match r.below(4) {
+                            0 => v[p] = *r.pick(b",;=/ \t0Zz"),
+                            1 => v[p] = 0x80 + r.below(0x80) as u8,
+                            2 => {
+                                v.remove(p);
+                            }
+                            _ => v.truncate(p),
+                        }
+                    }
+                }
+            }
+            5 => {
+                let b = &mut case.wire.body;
+                if b.is_empty() {
+                    b.extend_from_slice(b"a=%");
+                } else {
+                    let p = r.usize_below(b.len());
+                    b[p] = *r.pick(b"%&=+\xff\x80a");
+                }
+            }
+            _ => {
+                case.cfg.now = case.cfg.now.plus_s(*r.pick(&[900i64, -900, 901, -901, 86_400, -86_400 * 366]));
+            }
+        }
+    }
+    case
+}
+
 fn run_case(t: &mut Tally, case: &Case, class: &str) {
     let rec = execute(case);
     t.eval();
@@ -375,6 +449,8 @@ pub fn sub_san(seed: u64, shard: u64, n: u64, light: bool) -> i32 {
         let mut r = Rng::keyed(seed, "C08", "hostile-san", shard, i);
         let case = gen_hostile(&mut r);
         run_case(&mut t, &case, "hostile");
+        let case = gen_mutated_valid(seed, 5000 + shard, i);
+        run_case(&mut t, &case, "mutated-valid");
     }
     for case in crate::props::c18::corpus(seed + 1000 + shard, if light { n / 2 } else { n / 10 + 200 }) {
         run_case(&mut t, &case, "mixed-corpus");
@@ -641,6 +717,8 @@ pub fn run(tier: Tier) -> i32 {
             let mut r = Rng::keyed(seed, "C08", "hostile", s, i);
             let case = gen_hostile(&mut r);
             run_case(&mut t, &case, "hostile");
+            let case = gen_mutated_valid(seed, s, i);
+            run_case(&mut t, &case, "mutated-valid");
         }
         // the mixed corpus of the other properties' generators under this monitor
         if s < 8 {
@@ -734,6 +812,7 @@ pub fn run(tier: Tier) -> i32 {
         tally.inconclusive.push(e.clone());
     }
     ctx.gate("hostile cases executed (admitted by the http crate)", tally.get("executed/hostile"), tier.n(50_000, 3_000_000));
+    ctx.gate("validly signed requests with 1–3 byte-level edits executed", tally.get("executed/mutated-valid"), tier.n(50_000, 3_000_000));
     ctx.gate("charset labels executed", tally.get("charset_labels_executed"), LABELS.len() as u64 + 9);
     ctx.gate("heavy cases (≥ 60 KiB bodies, limit-length URIs) completed in the child process, folding on", tally.get("heavy_fold_on"), 25);
     ctx.gate("heavy cases completed, folding off", tally.get("heavy_fold_off"), 25);
